@@ -87,6 +87,12 @@ CLAIMED = {
     "C39": ("exploration",
             "Two real chains joined by 2 or 11 IBC v2 client pairs; GMP calls reach the destination from user-signed MsgSendCall, from sends whose packet sender differs from / re-spells the signer, and from packets committed by a foreign application with arbitrary sender strings; (client, sender, salt) triples are drawn from families whose naive concatenations coincide; payloads hold 1-3 messages (sends from the derived account, from a victim, from another GMP account, multi-input sends, failing messages, nested calls); relays are duplicated and replayed. Oracles: one address per triple for the whole run and never shared by two triples (the recorded finding: senders differing only in UTF-8 continuation bytes share a store key); a payload executes only with the derived account as sole signer, completely or not at all (bank diff); no other account is debited; a send is accepted only for sender == signer.",
             "deterministic simulation: colliding-triple families + foreign-sender packet injection under relay faults, address census + bank-diff oracle", "8 C39"),
+    "C29": ("exploration",
+            "One real wasm test application (08-wasm testing/simapp; separate engine wasmsim because 08-wasm is its own Go module) with 3-6 wasm clients; each world runs 3-8 client recoveries through the REAL gov module (submit, vote, execute) on state already changed by earlier recoveries. The untrusted contract is the fault: a seeded script of <= 30 store operations (get/has/set/delete/copy/iterate/reverse-iterate over subject-prefixed, substitute-prefixed, unprefixed, near-miss, doubled, prefix-only, nil and empty keys; ranges with equal, different, missing and one-sided prefixes) executed by the scriptable mock VM against the ClientRecoveryStore it is really handed, ending ok / contract error / VM error / panic / forbidden response at a seeded position. Plain map reference model over full dumps of the ibc and 08-wasm stores: substitute store byte-identical, subject store equals the model (exactly the subject-prefixed writes and deletes), every read equals the model (prefix routing; inconsistent prefixes read as empty), no other key of either store changes, nothing persists after a failed or panicking recovery.",
+            "deterministic simulation with an adversarial-contract fault model: seeded store-operation scripts run during gov-driven recovery, map reference model over full store dumps", "8 C29"),
+    "C40": ("fault_enumeration",
+            "Two real chains running the callbacks test application (modules/apps/callbacks/testing/simapp) joined by an ICS-20 v1 channel and an IBC v2 client pair; transfers carry src_callback / dest_callback memos with user gas limits absent, zero, below, at, above the chain maximum and 2^64-1; the scripted contract per callback type succeeds, errors, panics, burns all gas, or burns all gas and swallows the panic, optionally after writing state (a bank send to a sink account); the relayer's transaction gas limit is drawn from a ladder placed around the committed callback limit using a dry run of the same message (cannot pay the message, below / at / above the committed limit, exactly at it after an aborted attempt). In addition the real v1 and v2 middleware are driven directly over stub neighbours with chain maxima 1..3,000,000 where the remaining gas is known exactly and the async write-ack callback is reachable. Oracles: callback gas <= min(remaining, min(user limit, chain max)); a failing source ack/timeout callback leaves the packet completed with exactly the ICS-20 bank effect and nothing the callback wrote; out of gas on a meter below the committed limit aborts the whole transaction, nothing persists, and an amply funded retry commits; a failing destination callback gives an error acknowledgement with no bank/transfer state change. The coverage of the (callback type x contract behaviour x gas relation) grid is reported.",
+            "deterministic simulation with scripted contract faults and a relayer gas ladder around the committed limit; gas-bound + bank/store-diff oracles", "8 C40"),
     "C30": ("exploration",
             "2-3 real chains in a line or mesh of ICS-20 channels (v1, v2-over-alias, v2 clients) with the real rate-limit -> packet-forward -> transfer stack; users move natives (incl. '/'-segmented names) and vouchers over several hops and back under dropped/duplicated/replayed/reordered/raced relays, invalid and blocked receivers, tight timeouts, restarts. After EVERY block: real change of every bank balance and supply == sum of the ICS-20 reference model's predictions for the committed transactions; per channel end and escrowed denomination: escrow (net of donations) == voucher supply on the peer + in flight; native supplies constant.",
             "deterministic simulation: multi-chain token traffic under relay faults, ICS-20 reference model + cross-chain conservation equations on real bank state", "8 C30"),
@@ -152,7 +158,7 @@ for p in props:
             "thorough_cmd": f"./check {i} --tier thorough",
             "evidence_file": f"/verif/evidence/{i}.json",
             "replay_cmd_template": f"./check {i} --replay {{path}}",
-            "engine": "ibcsim",
+            "engine": "wasmsim" if i == "C29" else "ibcsim",
             "level_claimed": {"category": cat, "text": text, "design_ref": "DESIGN.md section " + ref},
             "level_note": TRUST,
             "technique": tech,
@@ -174,8 +180,13 @@ m = {
     "engines": [{
         "name": "ibcsim",
         "path": "/verif/ibcsim",
-        "serves_properties": [c["property_id"] for c in checks],
+        "serves_properties": [c["property_id"] for c in checks if c["engine"] == "ibcsim"],
         "kind_free_text": "deterministic discrete-event simulator in Go: real chains (testing/simapp) driven through ABCI by a seeded scheduler that owns consensus, clocks, mempools, relayers, users and faults; one OS process per world batch; replay = recorded operation list; ddmin minimiser",
+    }, {
+        "name": "wasmsim",
+        "path": "/verif/wasmsim",
+        "serves_properties": [c["property_id"] for c in checks if c["engine"] == "wasmsim"],
+        "kind_free_text": "same simulator framework (imports verif/ibcsim/sim for worlds, ops, workers, replay, minimiser, evidence) linked against the separate 08-wasm Go module: one real wasm test application driven through ABCI with real governance; the contract VM is the repository's scriptable MockWasmEngine",
     }],
     "checks": checks,
     "not_applicable": na,
